@@ -42,8 +42,12 @@ PROPS = {
     "C05": sysprop(["C05"], ["mixed", "default", "cancelable", "local"], 250, 4000, GEN_RULE),
     "C06": sysprop(["C06"], ["default", "cancelable", "mixed", "local"], 250, 4000, GEN_RULE),
     "C11": sysprop(["C11"], ["mixed", "local", "adapters"], 250, 4000, GEN_RULE),
-    "C13": sysprop(["C13"], ["adapters", "cancelable", "mixed"], 250, 4000, GEN_RULE),
-    "C14": sysprop(["C14"], ["adapters", "cancelable", "mixed"], 250, 4000, GEN_RULE),
+    "C13": sysprop(["C13"], ["adapters", "cancelable", "mixed"], 250, 4000, GEN_RULE + "; plus adapters dropped before completion whose "
+                   "wrapped future / stream owns spans of the trace (released before the adapter's span, also with a collector cycle in between)",
+                   extra=[S.verdict_stream_for("adrop", "core", "adrop", 40, 1000, shards=4)]),
+    "C14": sysprop(["C14"], ["adapters", "cancelable", "mixed"], 250, 4000, GEN_RULE + "; plus stream adapters dropped before completion "
+                   "whose wrapped stream owns spans of the trace",
+                   extra=[S.verdict_stream_for("adrop", "core", "adrop", 40, 1000, shards=4)]),
     "C16": sysprop(["C16"], ["mixed", "local", "default"], 250, 4000, GEN_RULE + "; plus random programs over the whole public API "
                    "against fastrace built WITHOUT the enable feature (no reporter call, no thread, no context, no closure invoked)",
                    extra=[S.verdict_stream_for("disabled", "disabled", "run", 60, 2000, flags="", shards=4, binary="vdisabled")]),
@@ -62,7 +66,8 @@ PROPS = {
     "C18": sysprop(["C18"], ["mixed", "local", "default", "adapters"], 150, 3000,
                    GEN_RULE + "; C18 compares times: order of all time points of a report against the model's logical clock, "
                    "durations against the wall-clock bracket of the calls that started/finished the span (lower bound 3us + 2%, upper bound 20us + 2% slack), "
-                   "begin times against the wall-clock window of the creating call (50 ms slack)"),
+                   "begin times against the wall-clock window of the creating call (50 ms slack)",
+                   extra=[S.verdict_stream_for("longspan", "core", "longspan", 1, 6, shards=4)]),
     "C19": {"coq": ["C19"], "streams": [S.jaeger_stream, S.reporters_stream_for("datadog", 12, 200), S.reporters_stream_for("otel", 12, 200)], "replay_sub": "jaeger",
             "rule": "record batches: random records (boundary ids incl. top bit set, 0, max; random u64 times; UTF-8 names/keys/values "
                     "with multi-byte, NUL and quote characters; 0-3 events with properties), byte-by-byte sweeps of one span across "
